@@ -398,6 +398,9 @@ func (C11Iso) Events(env world.Env, mm mc.Model) []string {
 		evs = append(evs, fmt.Sprintf("CreateFeedVariant:N:%d", i), fmt.Sprintf("UpdateFeedVariant:N:%d", i))
 	}
 	evs = append(evs, "DeleteNotifVariant:N:0", "DeleteNotifVariant:N:1", "DeleteNotifVariant:N:2", "DeleteFileVariant:N")
+	// O points its primary name at a name of N (the chain accepts that); N then hands that name over to O: the transfer
+	// is N's to make, O's primary-name entry is not N's to change
+	evs = append(evs, "MakePrimaryOther:O", "TransferOwnName:N")
 	evs = append(evs, "UpdateFeedOSame:N") // N re-submits exactly the value O's feed already holds
 	evs = append(evs, "PostSameFile:N")    // N posts the same content as O (in O's posting block: same content and start, other owner)
 	nj := world.MineAcctName("NJ", "jkl")  // the account whose address ends in "jkl" acts in its own name
@@ -521,6 +524,12 @@ func (C11Iso) Apply(env world.Env, mm mc.Model, ev string) mc.Step {
 		msg = storagetypes.NewMsgDeleteFile(who, append([]byte{}, c01F1.merkle...), m.Start+0)
 	case "RegisterOwnName":
 		msg = rnstypes.NewMsgRegisterName(who, strings.ToLower(p[1])+"name.jkl", 1, "{}", false)
+	case "MakePrimaryOther":
+		mp := rnstypes.NewMsgMakePrimary("nname.jkl")
+		mp.Creator = who
+		msg = mp
+	case "TransferOwnName":
+		msg = rnstypes.NewMsgTransfer(who, strings.ToLower(p[1])+"name.jkl", o)
 	}
 	before := c11Owned(w, env.Ctx(), "O", "feedO")
 	res := env.Deliver(msg)
@@ -543,6 +552,15 @@ func (C11Iso) Apply(env world.Env, mm mc.Model, ev string) mc.Step {
 				diff = append(diff, "+"+k)
 			}
 		}
+		if p[0] == "TransferOwnName" { // the name record itself passes to O: that is what the signer asked for
+			var rest []string
+			for _, x := range diff {
+				if !strings.HasPrefix(x[1:], "rns/Names/") {
+					rest = append(rest, x)
+				}
+			}
+			diff = rest
+		}
 		sort.Strings(diff)
 		if len(diff) > 0 {
 			st.Viols = append(st.Viols, viol("affects-only-the-creators-own-resource", p[0], "%s signed by %s changed records belonging to O: %v", ev, p[1], diff))
@@ -557,7 +575,7 @@ func init() {
 	regScenario(C11Iso{})
 	CaseReplayers["C11/signers"] = func(r *mc.Run, c string) { c11Signers(r, "quick") }
 	Props["C11"] = Prop{Level: "model_checking", Run: func(r *mc.Run, tier string) {
-		r.Rules = append(r.Rules, "(1) every message type registered for the custom modules (cross-checked against the Msg services of the registered file descriptors): every assignment of distinct valid addresses to its string fields (all permutations for <=5 fields, all rotations above): GetSigners = [creator], handler routable; (2) for every type three signed transactions through the real ante handler and DeliverTx: signed by another field's account (must be rejected, state unchanged), creator+extra signer (rejected), creator (must authenticate); (3) BFS over owner-only messages replayed by a non-owner N and by the owner O on a state where O owns a provider record, a feed, an inbox entry, a block list, a primary name and a storage file: N's messages leave every record of O byte-identical; (4) wasm binding PerformPostFile with creator = contract / another account")
+		r.Rules = append(r.Rules, "(1) every message type registered for the custom modules (cross-checked against the Msg services of the registered file descriptors): every assignment of distinct valid addresses to its string fields (all permutations for <=5 fields, all rotations above): GetSigners = [creator], handler routable; (2) for every type three signed transactions through the real ante handler and DeliverTx: signed by another field's account (must be rejected, state unchanged), creator+extra signer (rejected), creator (must authenticate); (3) BFS over owner-only messages replayed by a non-owner N and by the owner O on a state where O owns a provider record, a feed, an inbox entry, a block list, a primary name and a storage file: N's messages leave every record of O byte-identical (N handing one of its own names to O after O pointed its primary name at it included: only the name record may change); (4) wasm binding PerformPostFile with creator = contract / another account")
 		r.Assumptions = append(r.Assumptions, "records 'belonging to O' = keys or values containing O's address in storage/notification/rns stores, and the feed O created")
 		c11Signers(r, tier)
 		r.AddExplore(C11Iso{}, opts(tier, 4, 7, 60, 900, 100, 1000))
